@@ -754,6 +754,25 @@ func genC02(tier string, rng *rand.Rand, shard, nshards int, emit emitter) {
 				}
 			}
 		}
+		// frames of the exception sizes that are NO exceptions (function byte without the error bit): not an error at all
+		for k := 0; k < 48; k++ {
+			i++
+			if !mine(i, shard, nshards) {
+				continue
+			}
+			fcb := byte(rng.Intn(128))
+			if k%3 == 0 {
+				fcb = byte(supportedFCs[rng.Intn(10)])
+			}
+			dt := mbapFrame(tidv(rng), u8(rng), []byte{fcb, byte(u8(rng))})
+			dr := withCRC([]byte{byte(u8(rng)), fcb, byte(u8(rng))})
+			emit(parseOp("aserrT", dt, poison(rng)))
+			emit(parseOp("aserrR", dr, poison(rng)))
+			emit(parseOp("aserrRC", dr, poison(rng)))
+			dr2 := append([]byte{}, dr...)
+			dr2[4] ^= 0x10
+			emit(parseOp("aserrR", dr2, poison(rng)))
+		}
 		// exception frames: all 128 x 256
 		for f := 128; f <= 255; f++ {
 			for c := 0; c <= 255; c++ {
@@ -932,6 +951,11 @@ func genC03(tier string, rng *rand.Rand, shard, nshards int, emit emitter) {
 		for _, tail := range [][]byte{rbytes(rng, 1), rbytes(rng, 2), rbytes(rng, 3), rbytes(rng, 4), f[:1], f, {0, 0}, {0xFF, 0xFF}} {
 			emit(parseOp(ents[fi], append(append([]byte{}, f...), tail...), poison(rng)))
 		}
+		// the frame that lost its trailer (a gateway that strips checksums): its last two bytes are not the CRC of the rest
+		if len(f) > 4 {
+			emit(parseOp(ents[fi], f[:len(f)-2], poison(rng)))
+			emit(parseOp(ents[fi], f[:len(f)-1], poison(rng)))
+		}
 		// noise in front of a correctly checksummed frame
 		for _, head := range [][]byte{{0}, {0, 0}, {0xFF}, {f[0]}, rbytes(rng, 1)} {
 			emit(parseOp(ents[fi], append(append([]byte{}, head...), f...), poison(rng)))
@@ -958,6 +982,16 @@ func genC03(tier string, rng *rand.Rand, shard, nshards int, emit emitter) {
 		for _, e := range []string{"aserrRC", "respRC"} {
 			emit(parseOp(e, f, poison(rng)))
 			emit(parseOp(e, bad, poison(rng)))
+		}
+	}
+	// inputs too short to carry a trailer
+	for _, e := range []string{"reqRC", "respRC", "aserrRC"} {
+		for n := 0; n <= 3; n++ {
+			i++
+			if mine(i, shard, nshards) {
+				emit(parseOp(e, rbytes(rng, n), poison(rng)))
+				emit(parseOp(e, rbytes(rng, n), nil))
+			}
 		}
 	}
 	// re-encoding of parsed RTU responses ends with the CRC
